@@ -1,6 +1,7 @@
 package netsh
 
 import (
+	"errors"
 	"flag"
 	"fmt"
 	"io/ioutil"
@@ -11,6 +12,7 @@ import (
 	"k8s.io/apimachinery/pkg/runtime"
 	"k8s.io/client-go/dynamic/fake"
 	kubefake "k8s.io/client-go/kubernetes/fake"
+	k8stesting "k8s.io/client-go/testing"
 	"k8s.io/klog"
 	"tkestack.io/galaxy/pkg/api/galaxy/constant"
 	fakeGalaxyCli "tkestack.io/galaxy/pkg/ipam/client/clientset/versioned/fake"
@@ -24,7 +26,13 @@ import (
 type Reloader struct {
 	P    *schedulerplugin.FloatingIPPlugin
 	Last string
+	// FailList makes the store's list of FloatingIP objects fail (the one apiserver call of ConfigurePool), so
+	// that ensureIPAMConf sees a ConfigurePool error for an otherwise acceptable configuration.
+	FailList bool
 }
+
+// FailPrefix in front of a reload text means: apply this text while the store list fails.
+const FailPrefix = "!store-fails!"
 
 // QuietLogs sends klog's output (the plugin logs every reload) to nowhere.
 func QuietLogs() {
@@ -37,13 +45,22 @@ func QuietLogs() {
 }
 
 func NewReloader() (*Reloader, error) {
-	ctx := context.NewIPAMContext(kubefake.NewSimpleClientset(), fakeGalaxyCli.NewSimpleClientset(),
+	gcli := fakeGalaxyCli.NewSimpleClientset()
+	ctx := context.NewIPAMContext(kubefake.NewSimpleClientset(), gcli,
 		extensionClient.NewSimpleClientset(), fake.NewSimpleDynamicClient(runtime.NewScheme()))
 	p, err := schedulerplugin.NewFloatingIPPlugin(schedulerplugin.Conf{}, ctx)
 	if err != nil {
 		return nil, err
 	}
-	return &Reloader{P: p}, nil
+	r := &Reloader{P: p}
+	// the reactor only reads a flag: it never calls back into the clientset (which would deadlock the fake)
+	gcli.PrependReactor("list", "floatingips", func(k8stesting.Action) (bool, runtime.Object, error) {
+		if r.FailList {
+			return true, nil, errors.New("injected: store list failed")
+		}
+		return false, nil, nil
+	})
+	return r, nil
 }
 
 // Snapshot of what the IPAM serves.
@@ -141,4 +158,47 @@ func ExpectedAddresses(pools []*floatingip.FloatingIPPool) []string {
 	}
 	sort.Strings(out)
 	return out
+}
+
+// RetryAfterStoreFailure is the scripted history "reload A; reload B while the store list fails (k times); reload B
+// again with a working store": the failed attempts must change nothing and the last one must configure B.
+func RetryAfterStoreFailure(a, b string, k int) (vs []V) {
+	rl, err := NewReloader()
+	if err != nil {
+		return []V{{Sig: "harness:plugin-construction", What: err.Error()}}
+	}
+	if o := rl.Step(a, &vs); o != "configured" {
+		return vs // not a usable pair of configurations
+	}
+	rl.AllocateOne()
+	for i := 0; i < k; i++ {
+		before := rl.Snap()
+		rl.FailList = true
+		o := rl.Step(b, &vs)
+		rl.FailList = false
+		if o != "rejected" {
+			vs = append(vs, V{Sig: "reload:store-failure-not-reported", What: fmt.Sprintf("attempt %d answered %s", i, o)})
+		}
+		if d := before.Same(rl.Snap()); d != "" {
+			vs = append(vs, V{Sig: "reload:failed-reload-changed-state", What: fmt.Sprintf("attempt %d (%s): %s", i, o, d)})
+		}
+	}
+	o := rl.Step(b, &vs)
+	after := rl.Snap()
+	if o != "configured" {
+		vs = append(vs, V{Sig: "reload:not-retried-after-store-failure",
+			What: fmt.Sprintf("after %d failed attempts the same text answered %q; the IPAM still serves the old configuration", k, o)})
+		return vs
+	}
+	if pools, dec := DecodeConf(b); dec == "ok" {
+		if want := ExpectedAddresses(pools); want != nil {
+			got := append(append([]string(nil), after.Unalloc...), after.Allocated...)
+			sort.Strings(got)
+			if fmt.Sprint(got) != fmt.Sprint(want) && !(len(got) == 0 && len(want) == 0) {
+				vs = append(vs, V{Sig: "reload:deconfigured-address-still-served",
+					What: fmt.Sprintf("IPAM serves %d addresses, the new configuration holds %d", len(got), len(want))})
+			}
+		}
+	}
+	return vs
 }
